@@ -33,7 +33,19 @@ import (
 type c13Reply struct {
 	conc []*hotstuff.Block
 	ans  *hotstuff.Block
+	inj  c13Inject
 }
+
+// c13Inject: what happens in the replica while this fetch is being served, after the request went
+// out and before the reply is handed back (the reply itself still arrives). None of it changes
+// what the store must answer: an event cancels at most the context of the fetch under way, and the
+// stored block is the one being fetched, one the same walk fetches next, or one already stored.
+type c13Inject struct {
+	kind  int // 0 nothing, 1 TimeoutEvent, 2 ViewChangeEvent, 3 Store(block being fetched), 4 Store(other)
+	other *hotstuff.Block
+}
+
+var c13InjectNames = []string{"nothing", "TimeoutEvent", "ViewChangeEvent", "Store(the block being fetched)", "Store(another block)"}
 
 type c13Sender struct {
 	chain *Blockchain
@@ -44,6 +56,8 @@ type c13Sender struct {
 	// in-flight mode: RequestBlock announces itself on entered and waits for its answer
 	flight  bool
 	entered chan *c13Flight
+	el      *eventloop.EventLoop
+	refused int // requests that arrived with an already cancelled context (a real sender gives up)
 }
 
 // c13Flight: one RequestBlock call that is waiting for the peers' answer.
@@ -76,6 +90,11 @@ func (s *c13Sender) RequestBlock(ctx context.Context, h hotstuff.Hash) (*hotstuf
 		return s.requestInFlight(ctx, h)
 	}
 	s.asked = append(s.asked, h)
+	if ctx.Err() != nil {
+		// like GorumsSender: a request made with a cancelled context fails without an answer
+		s.refused++
+		return nil, false
+	}
 	r, ok := s.tbl[h]
 	if !ok {
 		return nil, false
@@ -83,6 +102,21 @@ func (s *c13Sender) RequestBlock(ctx context.Context, h hotstuff.Hash) (*hotstuf
 	for _, b := range r.conc {
 		s.chain.Store(b)
 		s.given = append(s.given, b)
+	}
+	switch r.inj.kind {
+	case 1:
+		s.el.AddEvent(hotstuff.TimeoutEvent{View: 1})
+	case 2:
+		s.el.AddEvent(hotstuff.ViewChangeEvent{View: 2, Timeout: false})
+	case 3:
+		if r.ans != nil {
+			s.chain.Store(r.ans)
+		}
+	case 4:
+		if r.inj.other != nil {
+			s.chain.Store(r.inj.other)
+			s.given = append(s.given, r.inj.other)
+		}
 	}
 	if r.ans == nil {
 		return nil, false
@@ -247,7 +281,8 @@ type c13Case struct {
 	peeks   []string // pruneHeight read after every operation
 	desc    []string
 	names   map[hotstuff.Hash]string
-	kept    []c13Kept // results of PruneToHeight the harness holds on to (aliasing)
+	kept    []c13Kept                   // results of PruneToHeight the harness holds on to (aliasing)
+	inject  map[hotstuff.Hash]c13Inject // for the next Extends: what happens while a hash is fetched
 	// reference forest: every block handed to the store so far, by its own hash
 	present map[hotstuff.Hash]*hotstuff.Block
 	lied    bool // a fetch answer had a hash different from the requested one (no network filter here)
@@ -265,7 +300,8 @@ func (e *c13Env) newCase(record bool) *c13Case {
 	c := &c13Case{env: e, record: record, intern: map[hotstuff.Hash]uint64{}, names: map[hotstuff.Hash]string{},
 		present: map[hotstuff.Hash]*hotstuff.Block{}, reported: map[hotstuff.Hash]int{}, increasing: true}
 	c.snd = &c13Sender{tbl: map[hotstuff.Hash]c13Reply{}}
-	c.chain = New(eventloop.New(e.logger, 16), e.logger, c.snd)
+	c.snd.el = eventloop.New(e.logger, 16)
+	c.chain = New(c.snd.el, e.logger, c.snd)
 	c.snd.chain = c.chain
 	c.genesis = hotstuff.GetGenesis()
 	c.id(hotstuff.Hash{})
@@ -726,7 +762,7 @@ func (c *c13Case) Extends(b, t *hotstuff.Block, fetch map[hotstuff.Hash]*hotstuf
 		if c.record {
 			ts[i] = fmt.Sprintf("(%d, [%s])", c.id(k), c.gB(fetch[k]))
 		}
-		c.snd.tbl[k] = c13Reply{ans: fetch[k]}
+		c.snd.tbl[k] = c13Reply{ans: fetch[k], inj: c.inject[k]}
 		if fetch[k].Hash() == k {
 			valid[k] = fetch[k]
 		}
@@ -735,7 +771,17 @@ func (c *c13Case) Extends(b, t *hotstuff.Block, fetch map[hotstuff.Hash]*hotstuf
 	if c.record {
 		op = fmt.Sprintf("(OExtends %s %s %s)", c.gB(b), c.gB(t), gList(ts))
 		desc = fmt.Sprintf("Extends %s %s (fetchable %d)", c.name(b), c.name(t), len(fetch))
+		for _, k := range keys {
+			if in := c.inject[k]; in.kind != 0 {
+				desc += fmt.Sprintf("; while #%d is fetched: %s", c.id(k), c13InjectNames[in.kind])
+				if in.kind == 4 {
+					desc += " " + c.name(in.other)
+				}
+			}
+		}
 	}
+	injected := len(c.inject) > 0
+	refused0 := c.snd.refused
 	// reference answer: t is b or lies on b's parent chain over the available blocks
 	mono := len(valid) == len(fetch)
 	if mono {
@@ -762,11 +808,19 @@ func (c *c13Case) Extends(b, t *hotstuff.Block, fetch map[hotstuff.Hash]*hotstuf
 	var got bool
 	pan := c.guard(op, desc, func() { got = c.chain.Extends(b, t) })
 	c.snd.tbl = map[hotstuff.Hash]c13Reply{}
+	c.inject = nil
 	for _, x := range c.snd.given[g0:] {
 		c.present[x.Hash()] = x
 	}
 	if pan {
 		return
+	}
+	if injected {
+		c.env.v.Count("extends_with_injection")
+	}
+	if n := c.snd.refused - refused0; n > 0 {
+		c.env.v.CountN("fetches_made_with_cancelled_context", n)
+		desc += fmt.Sprintf(" [%d fetch(es) were made with an already cancelled context and got no answer]", n)
 	}
 	if c.record {
 		c.emit(op, "(RBool (Some "+gBool(got)+"))", fmt.Sprintf("%s -> %v", desc, got))
@@ -1251,6 +1305,84 @@ func TestVerifC13(t *testing.T) {
 		}
 	}
 
+	// ---- stream "interleave": one Extends walk has to fetch k = 2..4 ancestors; while fetch number
+	// j is served an event reaches the event loop (TimeoutEvent, ViewChangeEvent) or a block is stored
+	// (the one being fetched, the one the walk fetches next, one already stored); every reply still
+	// arrives, so the answer is the parent-link closure over stored and fetchable blocks
+	il := 0
+	for k := 2; k <= v.Pick(4, 5); k++ {
+		for extraLocal := 0; extraLocal < 2; extraLocal++ { // a stored block in the middle of the gap
+			for cv := 0; cv < 2; cv++ {
+				c13NewUniverse(uint64(9000 + 100*k + 10*extraLocal + cv))
+				g := hotstuff.GetGenesis()
+				depth := k + 1 + extraLocal
+				chain := []*hotstuff.Block{g}
+				for i := 1; i <= depth; i++ {
+					chain = append(chain, c13Block(chain[i-1].Hash(), uint64(i), i))
+				}
+				side := c13Block(chain[1].Hash(), 2, 50)
+				localMid := 0
+				if extraLocal == 1 {
+					localMid = 2 + k/2 // chain[localMid] is stored, the others below the tip are not
+				}
+				var missing []*hotstuff.Block // in the order the walk asks for them
+				for i := depth - 1; i >= 1; i-- {
+					if i != localMid {
+						missing = append(missing, chain[i])
+					}
+				}
+				for j1 := 0; j1 < len(missing); j1++ {
+					for kind := 0; kind <= 5; kind++ {
+						for j2 := -1; j2 < len(missing); j2++ { // optionally a second injection later in the walk
+							if j2 >= 0 && (j2 <= j1 || kind == 0 || (kind+j1+j2)%2 == 0) {
+								continue
+							}
+							il++
+							key := fmt.Sprintf("interleave k=%d local=%d certs=%d at=%d kind=%d then=%d", k, extraLocal, cv, j1+1, kind, j2+1)
+							env.runCase("interleave", key, true, true, func(c *c13Case) {
+								c.Store(side)
+								if localMid != 0 {
+									c.Store(chain[localMid])
+								}
+								if kind%2 == 0 {
+									c.Store(chain[depth])
+								}
+								fall := map[hotstuff.Hash]*hotstuff.Block{}
+								for _, m := range missing {
+									fall[m.Hash()] = m
+								}
+								mk := func(j, kind int) c13Inject {
+									switch kind {
+									case 1, 2, 3:
+										return c13Inject{kind: kind}
+									case 4: // the block the walk fetches next (or genesis for the last fetch)
+										if j+1 < len(missing) {
+											return c13Inject{kind: 4, other: missing[j+1]}
+										}
+										return c13Inject{kind: 4, other: g}
+									case 5: // a block that is already stored
+										return c13Inject{kind: 4, other: side}
+									}
+									return c13Inject{}
+								}
+								c.inject = map[hotstuff.Hash]c13Inject{missing[j1].Hash(): mk(j1, kind)}
+								if j2 >= 0 {
+									c.inject[missing[j2].Hash()] = mk(j2, 1+(kind+j2)%3)
+								}
+								c.Extends(chain[depth], g, fall)       // must be true: everything can be fetched
+								c.Extends(chain[depth], side, nil)     // never
+								c.Extends(chain[depth], chain[1], nil) // all local now
+								c.LocalGet(missing[len(missing)-1].Hash())
+								c.Prune(chain[depth], uint64(depth))
+							})
+						}
+					}
+				}
+			}
+		}
+	}
+	v.CountN("interleave_cases", il)
+
 	// ---- stream "requery": the same Extends / Get / LocalGet queries before and after the store
 	// changes (a missing ancestor arrives, a commit prunes): answers must follow the store, not an
 	// earlier answer
@@ -1499,6 +1631,19 @@ func c13RandomProgram(c *c13Case, seed int64, liar bool) {
 				for _, x := range uni {
 					if x.Hash() == b.QuorumCert().BlockHash() {
 						t = x
+					}
+				}
+			}
+			if rng.Intn(3) == 0 { // something happens in the replica while the ancestors are fetched
+				c.inject = map[hotstuff.Hash]c13Inject{}
+				for h, x := range fetch {
+					switch k := rng.Intn(6); k {
+					case 1, 2, 3:
+						c.inject[h] = c13Inject{kind: k}
+					case 4:
+						if p, ok := fetch[x.Parent()]; ok && x.View() > t.View() { // the block the same walk fetches next
+							c.inject[h] = c13Inject{kind: 4, other: p}
+						}
 					}
 				}
 			}
